@@ -512,7 +512,7 @@ func runRoCase(x *acCtx, c *acCase) {
 				} else if c.A.Ver == 2 && c.A.Idx != "none" {
 					ixIdent = c.A.Full
 				}
-				fronts := []string{"blockstore.NewReadOnly", "blockstore.OpenReadOnly", "storage.OpenReadable", "storage.OpenReadable(ReaderAt-only)"}
+				fronts := []string{"blockstore.NewReadOnly", "blockstore.OpenReadOnly", "storage.OpenReadable", "storage.OpenReadable(ReaderAt-only)", "blockstore.NewReadOnly(used reader)", "storage.OpenReadable(used reader)"}
 				for _, fr := range fronts {
 					if sup != "none" && fr != "blockstore.NewReadOnly" {
 						continue
@@ -531,6 +531,23 @@ func runRoCase(x *acCtx, c *acCase) {
 						b, err = blockstore.OpenReadOnly(path, opts...)
 						if err == nil {
 							f = &roBS{b}
+						}
+					case "blockstore.NewReadOnly(used reader)", "storage.OpenReadable(used reader)":
+						// an io.ReaderAt is positional: a source that is also a reader, and has been read from before, is the same archive
+						used := bytes.NewReader(file)
+						used.Seek(int64(len(file)/2+1), io.SeekStart)
+						if fr == "blockstore.NewReadOnly(used reader)" {
+							var b *blockstore.ReadOnly
+							b, err = blockstore.NewReadOnly(used, nil, opts...)
+							if err == nil {
+								f = &roBS{b}
+							}
+						} else {
+							var s storage.ReadableCar
+							s, err = storage.OpenReadable(used, opts...)
+							if err == nil {
+								f = &roSC{s}
+							}
 						}
 					case "storage.OpenReadable(ReaderAt-only)": // sequential reads go through the library's own adapter
 						var s storage.ReadableCar
